@@ -1439,7 +1439,9 @@ psRes_t matrixSslLoadKeys(sslKeys_t *keys,
                     break;
                 }
             }
-            if (CAfile)
+            /* Do not let a successful load of the CA file hide that the
+               identity could not be loaded. */
+            if (CAfile && rc == PS_SUCCESS)
             {
                 rc = matrixSslLoadKeyMaterial(
                         keys, NULL, NULL, NULL, CAfile, 0, opts);
